@@ -140,7 +140,19 @@ type Sched struct {
 	ParkedRetries  int
 	Conflicts      int
 	decisionsDrawn int
+	cur            *StepCtx
 }
+
+// StepCtx names the reconcile step that is executing right now.
+type StepCtx struct {
+	Ctl, Part, ID string
+}
+
+// Current returns the step that is executing (nil between steps).
+func (s *Sched) Current() *StepCtx { return s.cur }
+
+// DecisionsDrawn returns how many scheduling decisions had more than one candidate and were drawn.
+func (s *Sched) DecisionsDrawn() int { return s.decisionsDrawn }
 
 func newSched(w *World, x *vstat.Ctx) *Sched {
 	return &Sched{w: w, x: x, CrashAt: -1, Budget: 6000, MaxIdleRetries: 2, MaxInflight: map[string]int{}}
@@ -420,10 +432,36 @@ func (s *Sched) candidates() []cand {
 			}
 		}
 	}
-	sort.SliceStable(tasks, func(i, j int) bool { return tasks[i].t.seq < tasks[j].t.seq })
-	sort.SliceStable(items, func(i, j int) bool { return items[i].it.seq < items[j].it.seq })
+	if s.Drawn {
+		// canonical order (controller, partition, id): the meaning of a drawn
+		// index must not depend on the order in which IDs happened to arrive
+		// (Go map iteration inside the code under test)
+		key := func(c cand) string {
+			var id string
+			if c.t != nil {
+				id = s.idStr(c.t.it.id)
+			} else {
+				id = s.idStr(c.it.id)
+			}
+			return fmt.Sprintf("%02d|%s|%s", s.ctlIndex(c.sl.c), c.sl.part, id)
+		}
+		sort.SliceStable(tasks, func(i, j int) bool { return key(tasks[i]) < key(tasks[j]) })
+		sort.SliceStable(items, func(i, j int) bool { return key(items[i]) < key(items[j]) })
+	} else {
+		sort.SliceStable(tasks, func(i, j int) bool { return tasks[i].t.seq < tasks[j].t.seq })
+		sort.SliceStable(items, func(i, j int) bool { return items[i].it.seq < items[j].it.seq })
+	}
 	out := append(tasks, items...)
 	return out
+}
+
+func (s *Sched) ctlIndex(c *ctl) int {
+	for i, x := range s.ctls {
+		if x == c {
+			return i
+		}
+	}
+	return 99
 }
 
 // Pending returns the number of pending (eligible or parked) items and in-flight tasks.
@@ -540,7 +578,9 @@ func (s *Sched) reconcile(sl *slot, it *item) (res controller.Result, err error,
 func (s *Sched) runAtomic(sl *slot, it *item) StepInfo {
 	t := &task{sl: sl, it: it}
 	sl.gate.task = t
+	s.cur = &StepCtx{Ctl: sl.c.name, Part: sl.part, ID: s.idStr(it.id)}
 	res, err, p, st := s.reconcile(sl, it)
+	s.cur = nil
 	sl.gate.task = nil
 	t.res, t.err, t.panicked, t.stack = res, err, p, st
 	s.finish(t)
@@ -563,6 +603,7 @@ func (s *Sched) startTask(sl *slot, it *item) StepInfo {
 	if n > s.MaxInflight["all"] {
 		s.MaxInflight["all"] = n
 	}
+	s.cur = &StepCtx{Ctl: sl.c.name, Part: sl.part, ID: s.idStr(it.id)}
 	go func() {
 		defer close(t.done)
 		t.res, t.err, t.panicked, t.stack = s.reconcile(sl, it)
@@ -571,11 +612,13 @@ func (s *Sched) startTask(sl *slot, it *item) StepInfo {
 }
 
 func (s *Sched) advance(t *task) StepInfo {
+	s.cur = &StepCtx{Ctl: t.sl.c.name, Part: t.sl.part, ID: s.idStr(t.it.id)}
 	t.resume <- struct{}{}
 	return s.waitTask(t)
 }
 
 func (s *Sched) waitTask(t *task) StepInfo {
+	defer func() { s.cur = nil }()
 	select {
 	case <-t.yieldCh:
 		return StepInfo{Ctl: t.sl.c.name, Part: t.sl.part, ID: s.idStr(t.it.id), Op: t.atOp}
